@@ -521,7 +521,8 @@ class Interp(object):
             if n in s.env:
                 entry[n] = s.env[n]
                 # loop-carried value at iteration entry: symbolic
-                if self._accum_terms(st.body, n) is None and self._is_read_before_write(st.body, n):
+                if self._accum_terms(st.body, n) is None and self._is_read_before_write(st.body, n) \
+                        and not self._elementwise_own_index(st.body, n, tnames):
                     body_state.env[n] = unk("carried", n, st.lineno)
         outs = self.exec_block(st.body, [body_state], ctx)
         ctx.loop_depth -= 1
@@ -568,6 +569,29 @@ class Interp(object):
         if st.orelse:
             res = self.exec_block(st.orelse, res, ctx)
         return res + rets
+
+    def _elementwise_own_index(self, body, name, tnames):
+        """every use of `name` in the loop body is name[<loop var>] (read or store): iteration i only
+        touches element i, so reads see the value from before the loop."""
+        if len(tnames) != 1:
+            return False
+        iv = tnames[0]
+        ok_ids = set()
+        for st in body:
+            for n in ast.walk(st):
+                if isinstance(n, ast.Subscript) and isinstance(n.value, ast.Name) and n.value.id == name \
+                        and isinstance(n.slice, ast.Name) and n.slice.id == iv:
+                    ok_ids.add(id(n.value))
+        for st in body:
+            for n in ast.walk(st):
+                if isinstance(n, ast.Name) and n.id == name and id(n) not in ok_ids:
+                    return False
+        # the loop variable itself must not be reassigned in the body
+        for st in body:
+            for n in ast.walk(st):
+                if isinstance(n, ast.Name) and n.id == iv and isinstance(n.ctx, ast.Store):
+                    return False
+        return bool(ok_ids)
 
     def _is_read_before_write(self, body, name):
         """does the loop body use the previous iteration's value of `name`?
@@ -1713,6 +1737,12 @@ def _solve(I, a, k, e, env, ctx):
 def _svd(I, a, k, e, env, ctx):
     m = a[0]
     return (Rat.atom(Fn("svd_u", (m,))), Rat.atom(Fn("svd_w", (m,))), Rat.atom(Fn("svd_vt", (m,))))
+
+
+@ext("scipy.interpolate.RectBivariateSpline", "scipy.interpolate.interp2d")
+def _spline(I, a, k, e, env, ctx):
+    nm = norm_text(e.func).split(".")[-1]
+    return Rat.atom(Fn("spline:" + nm, tuple(a) + tuple(("kw:" + kk, _vk2(v)) for kk, v in sorted(k.items()))))
 
 
 @ext("numpy.random.default_rng")
